@@ -335,7 +335,11 @@ func (m *Module) AssignGlobalIDs() error {
 				got := n.ID()
 				return errors.Errorf("invalid global ID, expected %s, got %s", enc.GlobalID(want), enc.GlobalID(got))
 			}
-			n.SetID(id)
+			if n.ID() != id {
+				// only write when the ID changes, so that printing an already
+				// numbered value from several goroutines performs no write.
+				n.SetID(id)
+			}
 			id++
 		}
 		return nil
